@@ -46,7 +46,7 @@ pub static SPEC: Spec = Spec {
         "well-formed request = W1-W5 (hash nodes straddling the replica length and seek+block inside the upgraded range are excluded: the scheme has no defined answer; C09 sends them)",
     ],
     exhaustive_note: "all request sequences of the stated length over the request alphabet of logs with 1..5 blocks, for every admissible first upgrade length",
-    hang_secs: 180,
+    hang_secs: 360,
 };
 
 const DIRECTED: u64 = 12;
